@@ -174,7 +174,7 @@ func c19FillRect(op c19Op, cols, rows uint32) (x0, x1, y0, y1 uint32, any bool) 
 // ---------------------------------------------------------------------------
 // guarded memory shared by all cases of the process
 
-const c19RegionBytes = 5 << 20
+const c19RegionBytes = 8 << 20
 
 var (
 	c19Once   sync.Once
